@@ -120,9 +120,12 @@ impl Prop for C16 {
          changes, addresses of an id's own or from a pool of two that several ids may hold at once or one after the other) published where chitchat would publish them (hook H-members), some back to back so the node's own \
          publisher skips one; a component subscribes via membership_changes() at a generated moment and reads after a \
          generated subset of the snapshots, always reading once more at the end; it applies each change like the \
-         replication services do (remove `left` ids, then insert `joined`); oracle 1: each delta it is handed equals \
-         the difference between the two snapshots the publisher computed it from, `left` carrying the OLD address; \
-         oracle 2: at the end it holds exactly the other members of the final snapshot; non-trivial = >=1 leave or \
+         replication services do (remove `left` ids, then insert `joined`); oracle 1: each non-empty delta it is handed equals \
+         the difference between two of the snapshots published so far (in order: not before the position the previous delta led to), \
+         `left` carrying the OLD address, no node named twice; \
+         oracle 2: at the end it holds exactly the other members of the final snapshot - a violation for a subscriber that subscribed \
+         first and read after every single snapshot, the recorded finding `watch-latest-only` for one that subscribed late or let two \
+         snapshots pass between two reads; non-trivial = >=1 leave or \
          address change"
     }
 }
@@ -156,6 +159,78 @@ fn delta_maps(d: &MembershipChange) -> (BTreeMap<u8, SocketAddr>, BTreeMap<u8, S
     (joined, left, dup)
 }
 
+/// What the subscriber knows and what it was handed, judged without a model of HOW the node turns snapshots into
+/// change events (whether it emits an empty event for a snapshot that changes nothing, whether it coalesces snapshots
+/// published back to back): the statement only speaks about what a subscriber holds at quiescence and about every
+/// departure being reported with the address the node had.
+struct Subscriber<'a> {
+    case: &'a Case,
+    held: BTreeMap<u8, SocketAddr>,
+    /// index of the last snapshot handed to the membership layer so far (-1: none)
+    published: isize,
+    /// lower bound of the position in the snapshot sequence the last non-empty event led to
+    chain: isize,
+    /// snapshots published since the subscriber last read (or subscribed)
+    unread: usize,
+    /// the schedule alone allows that an event was overwritten before the subscriber read it
+    may_have_missed: bool,
+    first_wrong: Option<String>,
+}
+
+impl<'a> Subscriber<'a> {
+    fn snap(&self, i: isize) -> Snapshot {
+        if i < 0 {
+            Snapshot::new()
+        } else {
+            self.case.snapshots[i as usize].clone()
+        }
+    }
+
+    fn begin_read(&mut self) {
+        if self.unread >= 2 {
+            self.may_have_missed = true;
+        }
+        self.unread = 0;
+    }
+
+    fn handed(&mut self, delta: &MembershipChange, when: &str) {
+        let (joined, left, dup) = delta_maps(delta);
+        if dup && self.first_wrong.is_none() {
+            self.first_wrong = Some(format!("{when}: handed an event that names a node twice: joined={:?} left={:?}", delta.joined, delta.left));
+        }
+        if !(joined.is_empty() && left.is_empty()) {
+            // the event must be the difference between two snapshots a < b published so far, not before the
+            // position the previous event led to (events are handed over in order)
+            let mut best: Option<isize> = None;
+            for a in self.chain.max(-1)..self.published {
+                for b in (a + 1)..=self.published {
+                    if expected_delta(&self.snap(a), &self.snap(b)) == (joined.clone(), left.clone()) {
+                        best = Some(best.map_or(b, |x: isize| x.min(b)));
+                    }
+                }
+            }
+            match best {
+                Some(b) => self.chain = b,
+                None => {
+                    if self.first_wrong.is_none() {
+                        let seq: Vec<Snapshot> = (-1..=self.published).map(|i| self.snap(i)).collect();
+                        self.first_wrong = Some(format!(
+                            "{when}: handed joined={:?} left={:?}, which is not the difference between any two of the snapshots published so far (from position {} on): {:?}",
+                            joined, left, self.chain, seq
+                        ));
+                    }
+                },
+            }
+        }
+        for id in left.keys() {
+            self.held.remove(id);
+        }
+        for (id, a) in joined {
+            self.held.insert(id, a);
+        }
+    }
+}
+
 async fn run(case: &Case) -> Outcome {
     let a = addr(ME, 0);
     let cfg = ConnectionConfig::new(a, a, Vec::<String>::new());
@@ -164,58 +239,27 @@ async fn run(case: &Case) -> Outcome {
 
     let n = case.snapshots.len();
     let mut stream = None;
-    let mut held: BTreeMap<u8, SocketAddr> = BTreeMap::new();
-    // snapshot the publisher last computed a delta against / the one before it
-    let mut consumed_prev = Snapshot::new();
-    let mut consumed = Snapshot::new();
-    let mut published = 0usize; // deltas published since the subscription
+    let mut sub = Subscriber { case, held: BTreeMap::new(), published: -1, chain: -1, unread: 0, may_have_missed: case.subscribe_at > 0, first_wrong: None };
     let mut observed = 0usize;
-    let mut first_read = true;
-    let mut missed_before_subscription = false;
-    let mut every_observed_correct = true;
-    let mut first_wrong: Option<String> = None;
     let mut pending_unconsumed = false;
     let mut skipped = false;
 
     for i in 0..=n {
         if i == case.subscribe_at && pending_unconsumed {
-            // the previous snapshot was published without giving the node's publisher a chance to run;
-            // subscribing and reading now would let it run: settle it first, so the model knows what the
-            // publisher has consumed (the back-to-back class then simply does not apply to this snapshot)
+            // the previous snapshot was published without giving the node's publisher a chance to run: let it
             tokio::time::sleep(Duration::from_millis(1)).await;
             pending_unconsumed = false;
-            consumed_prev = consumed.clone();
-            consumed = case.snapshots[i - 1].clone();
-            if stream.is_some() {
-                published += 1;
-            }
         }
         if i == case.subscribe_at {
             stream = Some(node.membership_changes());
-            // anything that joined before this moment was announced before we listened
-            missed_before_subscription = !consumed.is_empty() || i > 0;
+            sub.unread = 0;
             if case.read_at_subscribe {
-                // a watch channel hands a new subscriber the most recent value: the change computed for the
-                // last snapshot the publisher consumed (for a fresh node: its own start-up snapshot, which
-                // has no other members)
+                // a new subscriber may be handed the most recent event at once
                 let st = stream.as_mut().unwrap();
+                sub.begin_read();
                 while let Ok(Some(delta)) = tokio::time::timeout(Duration::from_millis(1), st.next()).await {
-                    first_read = false;
-                    let (joined, left, dup) = delta_maps(&delta);
-                    let (ej, el) = expected_delta(&consumed_prev, &consumed);
-                    if (joined != ej || left != el || dup) && first_wrong.is_none() {
-                        every_observed_correct = false;
-                        first_wrong = Some(format!(
-                            "right after subscribing before snapshot {i}: handed joined={:?} left={:?}, but the last membership change was {:?} -> {:?} (expected joined={:?} left={:?})",
-                            joined, left, consumed_prev, consumed, ej, el
-                        ));
-                    }
-                    for id in left.keys() {
-                        held.remove(id);
-                    }
-                    for (id, a) in joined {
-                        held.insert(id, a);
-                    }
+                    observed += 1;
+                    sub.handed(&delta, &format!("right after subscribing before snapshot {i}"));
                 }
             }
         }
@@ -226,47 +270,27 @@ async fn run(case: &Case) -> Outcome {
         let mut members: Vec<ClusterMember> = snap.iter().map(|(id, v)| member(*id, *v)).collect();
         members.push(member(ME, 0));
         node.verif_set_members(members);
+        sub.published = i as isize;
+        if stream.is_some() {
+            sub.unread += 1;
+        }
         let b2b = case.back_to_back[i] && i + 1 < n;
         if b2b {
-            // no await: the publisher cannot observe this snapshot on its own
+            // no await: the node's publisher cannot observe this snapshot on its own
             pending_unconsumed = true;
             skipped = true;
             continue;
         }
         tokio::time::sleep(Duration::from_millis(1)).await;
-        let _ = pending_unconsumed;
         pending_unconsumed = false;
-        // the publisher has now consumed `snap` (and skipped any back-to-back predecessor)
-        consumed_prev = consumed.clone();
-        consumed = snap.clone();
-        if stream.is_some() {
-            published += 1;
-        }
 
         let last = i + 1 == n;
         if let Some(st) = stream.as_mut() {
             if case.drain[i] || last {
-                // read whatever is available now
+                sub.begin_read();
                 while let Ok(Some(delta)) = tokio::time::timeout(Duration::from_millis(1), st.next()).await {
                     observed += 1;
-                    let (joined, left, dup) = delta_maps(&delta);
-                    // a watch channel hands out the latest value: the delta computed for the last consumed snapshot
-                    let (ej, el) = expected_delta(&consumed_prev, &consumed);
-                    let stale_first = first_read && published == 0;
-                    first_read = false;
-                    if !stale_first && (joined != ej || left != el || dup) && first_wrong.is_none() {
-                        every_observed_correct = false;
-                        first_wrong = Some(format!(
-                            "after snapshot {i}: handed joined={:?} left={:?}, but the membership went {:?} -> {:?} (expected joined={:?} left={:?})",
-                            joined, left, consumed_prev, consumed, ej, el
-                        ));
-                    }
-                    for id in left.keys() {
-                        held.remove(id);
-                    }
-                    for (id, a) in joined {
-                        held.insert(id, a);
-                    }
+                    sub.handed(&delta, &format!("after snapshot {i}"));
                 }
             }
         }
@@ -274,31 +298,29 @@ async fn run(case: &Case) -> Outcome {
     // final read for a subscriber that subscribed after the last snapshot
     if case.subscribe_at == n {
         if let Some(st) = stream.as_mut() {
+            sub.begin_read();
             while let Ok(Some(delta)) = tokio::time::timeout(Duration::from_millis(1), st.next()).await {
                 observed += 1;
-                let (joined, left, _) = delta_maps(&delta);
-                for id in left.keys() {
-                    held.remove(id);
-                }
-                for (id, a) in joined {
-                    held.insert(id, a);
-                }
+                sub.handed(&delta, "after the last snapshot");
             }
         }
     }
     node.shutdown().await;
 
-    if let Some(msg) = first_wrong {
+    if let Some(msg) = sub.first_wrong.take() {
         return Err(Fail { signature: "delta-wrong".into(), message: msg });
     }
-    let expect: BTreeMap<u8, SocketAddr> = consumed.iter().map(|(id, v)| (*id, addr(*id, *v))).collect();
-    let saw_everything = !missed_before_subscription && observed >= published && case.subscribe_at == 0;
-    if held != expect {
+    let expect: BTreeMap<u8, SocketAddr> = case.snapshots[n - 1].iter().map(|(id, v)| (*id, addr(*id, *v))).collect();
+    let saw_everything = !sub.may_have_missed;
+    if sub.held != expect {
         let msg = format!(
-            "at quiescence the subscriber holds {:?} but the live other members are {:?} (subscribed before snapshot {}, observed {observed} of {published} published changes)",
-            held, expect, case.subscribe_at
+            "at quiescence the subscriber holds {:?} but the live other members are {:?} (subscribed before snapshot {}, was handed {observed} events; {})",
+            sub.held,
+            expect,
+            case.subscribe_at,
+            if saw_everything { "it subscribed first and read after every single snapshot" } else { "it subscribed late or let two snapshots pass between two reads" }
         );
-        if every_observed_correct && !saw_everything {
+        if !saw_everything {
             // deltas travel on a latest-value channel: a late or slow subscriber can never recover what it missed
             return Err(Fail { signature: "watch-latest-only".into(), message: msg });
         }
